@@ -1,6 +1,6 @@
 (* C03 and the accounting part of C04, read off the invariant. *)
 From Coq Require Import ZArith List Bool String Lia.
-Require Import QzSched.Gen.Params QzSched.SchedModel QzSched.Registry QzSched.ApiProofs QzSched.FetchProofs
+Require Import QzSched.Gen.Params QzSched.SchedModel QzSched.Registry QzSched.ApiProofs QzSched.WfProofs QzSched.FetchProofs
                QzSched.LtsDefs QzSched.LtsProofs.
 Import ListNotations.
 Open Scope Z_scope.
@@ -68,10 +68,4 @@ Section C03.
     intros ts0 now0 tr s Hr. pose proof (reachable_inv _ _ _ _ Hr) as HI. split; [apply (inv_entries _ _ _ HI)|apply (inv_pre _ _ _ HI)].
   Qed.
 
-  (* C09: keys are unique in every reachable state *)
-  Theorem keys_nodup : forall ts0 now0 tr s, run (init ts0 now0) tr = Some s ->
-    NoDup (map e_key (q_list O (s_q s))).
-  Proof.
-    intros ts0 now0 tr s Hr. apply (qc_list_nodup O HC). apply (inv_wf _ _ _ (reachable_inv _ _ _ _ Hr)).
-  Qed.
 End C03.
